@@ -134,9 +134,14 @@ Proof.
 Qed.
 
 (* derivative(): for EVERY band of at least two images (normal or climbing, any energies) it
-   returns one block per image, the blocks of the two end images are identically zero (the end
-   images never move), and the block of interior image k+1 is minus that image's force. *)
-Theorem end_forces_zero :
+   returns one block per image, the blocks of the two end images are identically zero, and the block
+   of interior image k+1 is minus that image's force.
+   PARTIAL with respect to the clause "the two end images never move during optimisation": this is a
+   statement about the gradient handed to the optimiser (the hand model of derivative(), whose source
+   text is pinned); that scipy's L-BFGS-B leaves coordinates with identically zero gradient where they
+   are, and that total_energy()/set_coords() write them back unchanged, is not proved — it is measured
+   on the implementation (IDPP path and the optimiser path with a stand-in potential). *)
+Theorem end_forces_zero_partial :
   forall (F : Type) (F0 F1 : F) Fadd Fmul Fsub Fopp Fdiv Finv,
   field_theory F0 F1 Fadd Fmul Fsub Fopp Fdiv Finv (@eq F) ->
   forall ltb feqb eqe nrm,
@@ -154,31 +159,50 @@ Proof.
   exact (derivative_spec F F0 F1 Fadd Fmul Fsub Fopp Fdiv Finv Fth ltb feqb eqe nrm n band Hlen).
 Qed.
 
-(* Adaptive force constants (Images.increment).  Either the update is skipped (the highest energy
-   is, within Energy.__eq__'s tolerance, the higher end point: constants unchanged), or every image
-   gets a constant inside [min_k, max_k] that is monotone non-decreasing in the image energy. *)
+(* Adaptive force constants (Images.increment), complete description.  With e_ref the higher end point
+   and e_max the highest image energy (a maximum of the band, attained):
+   - the update is skipped EXACTLY when Energy.__eq__ says e_ref == e_max (|e_max - e_ref| < 1.59e-5 Ha);
+     the constants are then unchanged, hence constants that were inside the bounds stay inside;
+   - otherwise e_ref < e_max and every image gets a constant in [min_k, max_k], non-decreasing in the
+     image energy, STRICTLY increasing between images at or above e_ref (when min_k < max_k), equal to
+     min_k below e_ref and equal to max_k for the highest image.
+   Not claimed: that the constants an image STARTS with (init_k) lie inside the bounds — Images.__init__
+   accepts init_k outside [min_k, max_k] (finding Images.__init__|init_k-outside-configured-bounds). *)
 Theorem adaptive_k_bounds_monotone :
   forall nrm (min_k max_k : Qc) (es ks ks' : list Qc),
   (min_k <= max_k)%Qc ->
   increment_ks Qc (Oq nrm) true min_k max_k es ks = Some ks' ->
-  ks' = ks \/
-  (length ks' = length es /\
-   forall i j Ei Ej ki kj,
-     nth_error es i = Some Ei -> nth_error ks' i = Some ki ->
-     nth_error es j = Some Ej -> nth_error ks' j = Some kj ->
-     (min_k <= ki /\ ki <= max_k)%Qc /\ ((Ei <= Ej)%Qc -> (ki <= kj)%Qc)).
+  exists e_first, hd_error es = Some e_first /\
+  let e_ref := Qcmaxq e_first (last es e_first) in
+  let e_max := pmaxl Qc (Oq nrm) es in
+  In e_max es /\ (forall e, In e es -> (e <= e_max)%Qc) /\
+  ((forall k, In k ks -> (min_k <= k /\ k <= max_k)%Qc) -> forall k, In k ks' -> (min_k <= k /\ k <= max_k)%Qc) /\
+  ((energy_eqb e_ref e_max = true /\ ks' = ks) \/
+   (energy_eqb e_ref e_max = false /\ (e_ref < e_max)%Qc /\ length ks' = length es /\
+    forall i j Ei Ej ki kj,
+      nth_error es i = Some Ei -> nth_error ks' i = Some ki ->
+      nth_error es j = Some Ej -> nth_error ks' j = Some kj ->
+      (min_k <= ki /\ ki <= max_k)%Qc /\ ((Ei <= Ej)%Qc -> (ki <= kj)%Qc) /\
+      ((min_k < max_k)%Qc -> (e_ref <= Ei)%Qc -> (Ei < Ej)%Qc -> (ki < kj)%Qc) /\
+      ((Ei < e_ref)%Qc -> ki = min_k) /\ (Ei = e_max -> ki = max_k))).
 Proof.
   intros nrm min_k max_k es ks ks' Hk H. unfold increment_ks in H.
   destruct es as [|e_first es'] eqn:Ees; [discriminate|]. rewrite <- Ees in *.
-  destruct (adaptive_skip Qc (Oq nrm) min_k max_k e_first (last es e_first) es) eqn:Es.
-  - left. injection H as <-. reflexivity.
-  - right. injection H as <-. split; [apply map_length|].
-    intros i j Ei Ej ki kj Hi Hki Hj Hkj.
-    rewrite (map_nth_error _ _ _ Hi) in Hki. rewrite (map_nth_error _ _ _ Hj) in Hkj.
-    injection Hki as <-. injection Hkj as <-.
-    assert (Hhd : hd_error es = Some e_first) by (rewrite Ees; reflexivity).
-    exact (adaptive_k_props nrm min_k max_k es e_first Hk Hhd Es Ei Ej
-             (nth_error_In _ _ Hi) (nth_error_In _ _ Hj)).
+  assert (Hhd : hd_error es = Some e_first) by (rewrite Ees; reflexivity).
+  exists e_first. split; [exact Hhd|]. cbv zeta.
+  destruct (adaptive_k_props_strong nrm min_k max_k es e_first Hk Hhd) as [Hs [Hin [Hmax Hupd]]].
+  split; [exact Hin|]. split; [exact Hmax|].
+  rewrite Hs in H.
+  destruct (energy_eqb (Qcmaxq e_first (last es e_first)) (pmaxl Qc (Oq nrm) es)) eqn:Es.
+  - injection H as <-. split; [intros Hb k Hkin; apply Hb; exact Hkin|]. left. split; reflexivity.
+  - injection H as <-. destruct (Hupd eq_refl) as [Hd Hall]. split.
+    + intros _ k Hkin. apply in_map_iff in Hkin. destruct Hkin as [E [<- HE]].
+      exact (proj1 (Hall E E HE HE)).
+    + right. split; [reflexivity|]. split; [exact Hd|]. split; [apply map_length|].
+      intros i j Ei Ej ki kj Hi Hki Hj Hkj.
+      rewrite (map_nth_error _ _ _ Hi) in Hki. rewrite (map_nth_error _ _ _ Hj) in Hkj.
+      injection Hki as <-. injection Hkj as <-.
+      exact (Hall Ei Ej (nth_error_In _ _ Hi) (nth_error_In _ _ Hj)).
 Qed.
 
 (* with adaptive constants switched off (or an energy missing) nothing changes *)
@@ -250,8 +274,11 @@ Qed.
 
 (* partition(max_delta, distance_idxs): whenever it returns, no two consecutive images of the new
    band differ by more than max_delta for any selected atom, the first and last image are the
-   original ones, and no image count is lost — given only that from_end_points keeps its two end
-   points (the IDPP oracle).  Induction over the outer loop; any fuel, any band. *)
+   original ones and every image of the original band is still present — given only that
+   from_end_points keeps its two end points (the IDPP oracle; equality of images, in the correspondence:
+   coordinates equal to 1e-8).  Conditional on partition RETURNING (POk): termination of Python's
+   unbounded while loop is not claimed.  Atom order/composition of the inserted images is a property of
+   the oracle and is measured on the implementation only.  Induction over the outer loop; any fuel. *)
 Theorem partition_bound :
   forall (I : Type) (dist : I -> I -> nat -> Qc) (build : I -> I -> nat -> option (list I)),
   (forall l r n s, build l r n = Some s -> exists mid, s = l :: mid ++ [r]) ->
@@ -260,12 +287,12 @@ Theorem partition_bound :
   (forall k a b j, nth_error out k = Some a -> nth_error out (S k) = Some b -> In j idxs ->
                    (dist a b j <= max_delta)%Qc) /\
   hd_error out = hd_error band /\ (forall d, last out d = last band d) /\
-  (2 <= length band <= length out)%nat.
+  (2 <= length band <= length out)%nat /\ (forall x, In x band -> In x out).
 Proof.
   intros I dist build Hb fuel idxs md band out H. unfold partition in H.
   destruct (length band <? 2)%nat eqn:E; [discriminate|]. apply Nat.ltb_ge in E.
-  destruct (outer_spec I dist idxs build Hb md fuel band out H) as [Hc [Hh [Hl Hlen]]].
-  split; [|split; [exact Hh|split; [exact Hl|lia]]].
+  destruct (outer_spec I dist idxs build Hb md fuel band out H) as [Hc [Hh [Hl [Hlen Hin]]]].
+  split; [|split; [exact Hh|split; [exact Hl|split; [lia|exact Hin]]]].
   intros k a b j Ha Hbk Hj.
   exact (proj1 (consecutive_nth (pair_le I dist idxs md) out) Hc k a b Ha Hbk j Hj).
 Qed.
